@@ -55,11 +55,14 @@ class StreamingDetector(ABC):
                 of columns don't match
             ValueError: raised if X contains more than one observation after coercion
         """
+        # column names / dimension are only recorded once every check below has
+        # passed, so that a rejected input leaves no trace
+        input_cols, input_col_dim = self._input_cols, self._input_col_dim
         if isinstance(X, DataFrame):
             # The first update with a dataframe will constrain subsequent input.
             if self._input_cols is None:
-                self._input_cols = X.columns
-                self._input_col_dim = len(self._input_cols)
+                input_cols = X.columns
+                input_col_dim = len(input_cols)
             elif self._input_cols is not None:
                 if not X.columns.equals(self._input_cols):
                     raise ValueError(
@@ -75,7 +78,7 @@ class StreamingDetector(ABC):
             if self._input_col_dim is None:
                 # This allows starting with a dataframe, then later passing bare
                 # numpy arrays. For now, assume users are not miscreants.
-                self._input_col_dim = ary.shape[1]
+                input_col_dim = ary.shape[1]
             elif self._input_col_dim is not None:
                 if ary.shape[1] != self._input_col_dim:
                     raise ValueError(
@@ -86,6 +89,7 @@ class StreamingDetector(ABC):
             raise ValueError(
                 "Input for streaming detectors should contain only one observation."
             )
+        self._input_cols, self._input_col_dim = input_cols, input_col_dim
         return ary
 
     def _validate_y(self, y):
@@ -233,11 +237,14 @@ class BatchDetector(ABC):
                 of columns don't match
             ValueError: if only one sample has been passed
         """
+        # column names / dimension are only recorded once every check below has
+        # passed, so that a rejected input leaves no trace
+        input_cols, input_col_dim = self._input_cols, self._input_col_dim
         if isinstance(X, DataFrame):
             # The first update with a dataframe will constrain subsequent input.
             if self._input_cols is None:
-                self._input_cols = X.columns
-                self._input_col_dim = len(self._input_cols)
+                input_cols = X.columns
+                input_col_dim = len(input_cols)
             elif self._input_cols is not None:
                 if not X.columns.equals(self._input_cols):
                     raise ValueError(
@@ -254,7 +261,7 @@ class BatchDetector(ABC):
             if self._input_col_dim is None:
                 # This allows starting with a dataframe, then later passing bare
                 # numpy arrays. For now, assume users are not miscreants.
-                self._input_col_dim = ary.shape[1]
+                input_col_dim = ary.shape[1]
             elif self._input_col_dim is not None:
                 if ary.shape[1] != self._input_col_dim:
                     raise ValueError(
@@ -264,6 +271,7 @@ class BatchDetector(ABC):
             raise ValueError(
                 "Input for batch detectors should contain more than one observation."
             )
+        self._input_cols, self._input_col_dim = input_cols, input_col_dim
         return ary
 
     def _validate_y(self, y):
